@@ -125,7 +125,7 @@ def read_query(gen: Dict[str, str], forms: List[Dict[str, Any]]) -> List[Dict[st
     ifs = [d for d in decls if d[2] is None]
     form0 = forms[0]
     want_acc = 1 if (single and form0["form"] == "agg") else 0
-    has_cond = single and (form0["form"] == "cond" or (form0["form"] == "agg" and "cond" in form0["upd"]))
+    has_cond = single and (form0["form"] == "cond" or (form0["form"] == "agg" and ("cond" in form0["upd"] or "condIn" in form0["upd"])))
     if len(acc_decls) != len(aggs) + want_acc or len(ifs) != (1 if has_cond else 0):
         raise Unreadable(f"declarations {decls} do not fit {len(aggs)} aggregate operands and the form {form0['form']}")
     leaf_decls: List[str] = []
@@ -232,7 +232,7 @@ def impl_for_spec(p: Dict[str, Any], form: Dict[str, Any]) -> Dict[str, Any]:
         out["accTy"] = d.group(1)
         out["seed"] = d.group(3)
         rest = lines[1:]
-        if "cond" in form["upd"]:
+        if "cond" in form["upd"] or "condIn" in form["upd"]:
             if len(rest) != 6:
                 raise Unreadable(f"aggregate lines {lines}")
             out.update(cond_pieces(rest[:5]))
